@@ -280,3 +280,93 @@ Example C07_any_monotone_snapshots_nonvacuous :
     [([97], 1, false); ([97], 3, true); ([98], 4, false); ([97], 5, false); ([97], 6, true)] /\
   replay (delivered 7 d0 all) = [([98], (5, 4))].
 Proof. exact mono_hypotheses_satisfiable. Qed.
+
+(* ======================================================================================================
+   The in-tree consumers of change iterators: Derive (derive.go) and Observable (observable.go), modelled in
+   Table/Clients.v as programs over this model's operations and run for real by engine `clients`.
+   Because a run of the system is a run of operations (C07_client_runs_are_model_runs), the theorems above
+   apply to what the consumers are handed; Table/ClientsProofs*.v draw the consequences.                *)
+From SV Require Import Table.Clients Table.ClientsProofs Table.ClientsProofs2.
+
+Theorem C07_client_runs_are_model_runs : forall cs s s' outs ops,
+  crun s cs = (s', outs, ops) -> cs_db s' = fst (run (cs_db s) ops).
+Proof. exact crun_is_run. Qed.
+Print Assumptions C07_client_runs_are_model_runs.
+
+(* one iteration of a mirroring Derive applies exactly the changes its Next delivered to the derived
+   table, changes no other table and leaves no transaction open *)
+Theorem C07_derive_iteration_applies_the_delivered_changes : forall ds d d' ds' ops tout l w,
+  d_txn d = None -> nth_error (d_root d) (dv_out ds) = Some tout -> om_sorted (t_primary tout) ->
+  derive_iter (tr_std 0) ds d = (d', ds', ops) ->
+  snd (step (fst (step d (OBegin [dv_out ds]))) (ONext (dv_iid ds) STxn None)) = OutChanges l w ->
+  (exists tout', nth_error (d_root d') (dv_out ds) = Some tout' /\ om_sorted (t_primary tout') /\
+                 contents tout' = fold_left apply_c l (contents tout)) /\
+  (forall i, i <> dv_out ds -> nth_error (d_root d') i = nth_error (d_root d) i) /\
+  d_txn d' = None.
+Proof. exact derive_mirror_iter. Qed.
+Print Assumptions C07_derive_iteration_applies_the_delivered_changes.
+
+(* loop invariant: "the derived table is the replay of everything the iterator delivered" is preserved by
+   every iteration, whatever ran before it *)
+Theorem C07_derive_loop_invariant : forall ds d0 ops tout d' ds' ops_i,
+  let d := fst (run d0 ops) in
+  d_txn d = None ->
+  nth_error (d_root d) (dv_out ds) = Some tout -> om_sorted (t_primary tout) ->
+  contents tout = cproj (replay (delivered (dv_iid ds) d0 ops)) ->
+  derive_iter (tr_std 0) ds d = (d', ds', ops_i) ->
+  d' = fst (run d0 (ops ++ ops_i)) /\ d_txn d' = None /\
+  (exists tout', nth_error (d_root d') (dv_out ds) = Some tout' /\ om_sorted (t_primary tout') /\
+                 contents tout' = cproj (replay (delivered (dv_iid ds) d0 (ops ++ ops_i)))) /\
+  (forall i, i <> dv_out ds -> nth_error (d_root d') i = nth_error (d_root d) i).
+Proof. exact derive_mirror_step. Qed.
+Print Assumptions C07_derive_loop_invariant.
+
+(* composed with C07_from_init_converges: an iteration whose Next refreshes leaves the derived table with
+   exactly the contents of the input table in the root it ran against *)
+Theorem C07_derive_converges_to_its_input : forall n pre t0 ops ds tout d' ds' ops_i S it,
+  let iid := dv_iid ds in let out := dv_out ds in
+  let dc := fst (run (init_db n) pre) in
+  let d0 := fst (step dc (OChanges iid (dv_in ds))) in
+  let d := fst (run d0 ops) in
+  d_txn d = None ->
+  nth_error (d_root d) out = Some tout -> om_sorted (t_primary tout) ->
+  contents tout = cproj (replay (delivered iid d0 ops)) ->
+  derive_iter (tr_std 0) ds d = (d', ds', ops_i) ->
+  next_source (fst (step d (OBegin [out]))) iid STxn = Some S ->
+  assoc iid (d_iters d) = Some it -> it_tab it = dv_in ds -> dv_in ds <> dv_out ds ->
+  room_run (init_db n) (pre ++ OChanges iid (dv_in ds) :: (ops ++ [OBegin [out]]) ++ [ONext iid STxn None]) ->
+  created dc iid (dv_in ds) t0 ->
+  (forall cur, nth_error (d_root dc) (dv_in ds) = Some cur -> ~ reg iid cur) ->
+  friendly_run iid (dv_in ds) d0 ((ops ++ [OBegin [out]]) ++ [ONext iid STxn None]) ->
+  exists tin' tout', nth_error (d_root d') (dv_in ds) = Some tin' /\ nth_error (d_root d') out = Some tout' /\
+                     contents tout' = contents tin'.
+Proof. exact derive_mirror_equals_input. Qed.
+Print Assumptions C07_derive_converges_to_its_input.
+
+Example C07_derive_nonvacuous :
+  let flat := snd (crun (init_csys 2 0) cx_pre) in
+  let pre := firstn 8 flat in let ops := skipn 9 flat in
+  let dc := fst (run (init_db 2) pre) in
+  let d0 := fst (step dc (OChanges derive_iid 0)) in
+  let d := fst (run d0 ops) in
+  flat = pre ++ OChanges derive_iid 0 :: ops /\ d = cs_db cx_s /\ d_txn d = None /\
+  (exists tout, nth_error (d_root d) 1 = Some tout /\ om_sorted (t_primary tout) /\
+                contents tout = cproj (replay (delivered derive_iid d0 ops)) /\ contents tout = [([97], 1)]) /\
+  (exists S, next_source (fst (step d (OBegin [1%nat]))) derive_iid STxn = Some S /\ contents S = [([98], 2)]) /\
+  (exists it, assoc derive_iid (d_iters d) = Some it /\ it_tab it = 0%nat) /\
+  room_run (init_db 2) (pre ++ OChanges derive_iid 0 :: (ops ++ [OBegin [1%nat]]) ++ [ONext derive_iid STxn None]) /\
+  (exists t0, created dc derive_iid 0 t0) /\
+  (forall cur, nth_error (d_root dc) 0 = Some cur -> ~ reg derive_iid cur) /\
+  friendly_run derive_iid 0 d0 ((ops ++ [OBegin [1%nat]]) ++ [ONext derive_iid STxn None]).
+Proof. exact derive_mirror_converges_nonvacuous. Qed.
+
+(* Observable: one run of the observer goroutine (from a returned callback, or from its wake-up, to the next
+   callback or the select) hands the callback at most one change, and that change is exactly what the
+   iterator delivered in the operations the run executed; nothing is dropped between two callbacks *)
+Theorem C07_observer_run_hands_over_what_the_iterator_delivered : forall fuel os d acc,
+  exists ops1, snd (observe_run fuel os d acc) = acc ++ ops1 /\
+    let os' := snd (fst (observe_run fuel os d acc)) in
+    (exists c, os' = oset os (OHold c) /\ delivered (ov_iid os) d ops1 = [c]) \/
+    (delivered (ov_iid os) d ops1 = [] /\ (os' = os \/ exists wr, os' = oset os (OWait wr))).
+Proof. exact observe_run_delivered. Qed.
+Print Assumptions C07_observer_run_hands_over_what_the_iterator_delivered.
